@@ -1,0 +1,99 @@
+//go:build verif
+
+package mocrelay
+
+import (
+	"fmt"
+	"sort"
+)
+
+// Exports for the verification harness in /verif (build tag verif only).
+
+// VerifCacheState is a copy of the internal tables of an EventCache.
+type VerifCacheState struct {
+	// Evs lists (event key, id of the event stored under it), sorted by key.
+	Evs [][2]string
+	// Tree lists (created_at and id of the key, id of the value) in iteration order.
+	Tree [][3]string
+	// Index lists (what, value, sorted ids of the events in the set), sorted.
+	Index []VerifCacheIndexEntry
+	// Deleted lists (event key, pubkey, sorted ids of the deletion requests), sorted.
+	Deleted []VerifCacheDeletedEntry
+}
+
+type VerifCacheIndexEntry struct {
+	What  string
+	Value []string
+	IDs   []string
+}
+
+type VerifCacheDeletedEntry struct {
+	EventKey string
+	Pubkey   string
+	IDs      []string
+}
+
+// VerifState copies the internal tables under the read lock.
+func (c *EventCache) VerifState() VerifCacheState {
+	c.mu.RLock()
+	defer c.mu.RUnlock()
+
+	var st VerifCacheState
+
+	for k, ev := range c.evs {
+		st.Evs = append(st.Evs, [2]string{k, ev.ID})
+	}
+	sort.Slice(st.Evs, func(i, j int) bool { return st.Evs[i][0] < st.Evs[j][0] })
+
+	for it := c.evsCreatedAt.Iterator(); it.Valid(); it.Next() {
+		k := it.Key()
+		st.Tree = append(st.Tree, [3]string{fmt.Sprint(k.CreatedAt), k.ID, it.Value().ID})
+	}
+
+	for k, m := range c.evsIndex.idx {
+		ent := VerifCacheIndexEntry{}
+		switch k.What {
+		case eventCacheEvsIndexKeyWhatID:
+			ent.What, ent.Value = "id", []string{k.Value.(string)}
+		case eventCacheEvsIndexKeyWhatAuthor:
+			ent.What, ent.Value = "author", []string{k.Value.(string)}
+		case eventCacheEvsIndexKeyWhatKind:
+			ent.What, ent.Value = "kind", []string{fmt.Sprint(k.Value)}
+		case eventCacheEvsIndexKeyWhatTag:
+			v := k.Value.([2]string)
+			ent.What, ent.Value = "tag", []string{v[0], v[1]}
+		default:
+			ent.What, ent.Value = fmt.Sprint(k.What), []string{fmt.Sprint(k.Value)}
+		}
+		for ev := range m {
+			ent.IDs = append(ent.IDs, ev.ID)
+		}
+		sort.Strings(ent.IDs)
+		st.Index = append(st.Index, ent)
+	}
+	sort.Slice(st.Index, func(i, j int) bool {
+		a, b := st.Index[i], st.Index[j]
+		if a.What != b.What {
+			return a.What < b.What
+		}
+		return fmt.Sprint(a.Value) < fmt.Sprint(b.Value)
+	})
+
+	for k, m := range c.deleted {
+		ent := VerifCacheDeletedEntry{EventKey: k.EventKey, Pubkey: k.Pubkey}
+		for id := range m {
+			ent.IDs = append(ent.IDs, id)
+		}
+		sort.Strings(ent.IDs)
+		st.Deleted = append(st.Deleted, ent)
+	}
+	sort.Slice(st.Deleted, func(i, j int) bool {
+		a, b := st.Deleted[i], st.Deleted[j]
+		if a.EventKey != b.EventKey {
+			return a.EventKey < b.EventKey
+		}
+		return a.Pubkey < b.Pubkey
+	})
+
+	return st
+}
